@@ -42,7 +42,7 @@ def c06_assign():
     o = next(p for p in i.reference.ports if p.name == 'o')
     w = i.pins[o.pins[0]].wire
     print('   C06 assign: pin o[0] should carry b[6]; carries b[%d]' % (w.cable.lower_index + w.cable.wires.index(w)))
-    roundtrip(n)   # C04: raised AssertionError "multiple cables appear to be connected to a single assignment input" before fde4fe6
+    roundtrip(n)   # C04: raised AssertionError "multiple cables appear to be connected to a single assignment input" before 0d1ef27
 
 
 def c06_port_order():
@@ -98,9 +98,9 @@ def c04_reg():
 
 
 if __name__ == '__main__':
-    case('fixed fde4fe6 (was V06-assign-msb-first / V04-assign-compose-assert; bundled lc3.v, 8051.v)', c06_assign)
+    case('fixed 0d1ef27 (was V06-assign-msb-first / V04-assign-compose-assert; bundled lc3.v, 8051.v)', c06_assign)
     case('V06-port-order-forward-named', c06_port_order)
-    case('fixed a38d4bb (was V06-positional-empty)', c06_rejected('module M(x,z,y); input x; input z; output y; endmodule module top(a,b); input a; output b; M m(a, , b); endmodule'))
+    case('fixed 39dcf2d (was V06-positional-empty)', c06_rejected('module M(x,z,y); input x; input z; output y; endmodule module top(a,b); input a; output b; M m(a, , b); endmodule'))
     case('V06-port-attrs-dropped', c06_port_attr)
     case('V06-glob-identifier', c06_rejected('module top(a); input a; wire \\xy ; wire \\x* ; P p(.q(\\x* ), .r(\\xy )); endmodule'))
     case('V06-positional-undeclared-no-growth', c06_rejected('module top(a,c); input [3:0] a; output [1:0] c; P p1(x, a[1:0]); P p2(c, a); endmodule'))
